@@ -1,0 +1,18 @@
+//go:build verif
+
+package rtpfragmented
+
+// Contracts checked by /verif/govc (see /verif/DESIGN.md). Comment-only file.
+
+//@ typeinv Decoder d
+//@   inv[C08] 0 <= d.fragmentsSize && d.fragmentsSize <= mpeg4video.MaxFrameSize
+
+//@ func (d *Decoder) Decode
+//@   opt safety-tag=C08
+//@   opt frame-tag=C08
+//@   requires len(pkt.Payload) <= 65535
+//@   ensures[C08] err != nil || len(ret) > 0
+//@   ensures[C08] err == nil ==> len(ret) <= mpeg4video.MaxFrameSize
+//@   ensures[C08] err != nil ==> ret == nil
+//@   ensures[C08] err == nil ==> fresh(ret) || sameslice(ret, pkt.Payload)
+//@   modifies fields(d), elems(d.fragments), fresh
